@@ -49,7 +49,7 @@ def run (α : Type) [Scalar α] [Codec α] (op : String) (c : Ctx) : Option (Rd 
       let cc : α ← Rd.sc c
       let s := sort3 a b cc
       let br : Bool := decide (s.1 < s.2.2)
-      pure s!"{Out.bool br} {Out.sc (Ellipsoid.saPhi s.2.2 s.1)} {Out.sc (Ellipsoid.saM s.2.2 s.2.1 s.1)} {Out.sc s.1} {Out.sc s.2.1} {Out.sc s.2.2}"
+      pure s!"{Out.bool br} {Out.sc (Ellipsoid.saPhi s.2.2 s.1)} {Out.sc (Scalar.min (Ellipsoid.saM s.2.2 s.2.1 s.1) (Scalar.lit 1))} {Out.sc s.1} {Out.sc s.2.1} {Out.sc s.2.2}"
   | "c10.ellipsoid.all" => some do
       -- in: a b c cen(3) E K (= ellipeinc / ellipkinc at the model's arguments)
       -- out: volume surface inertia(9) iq
